@@ -414,3 +414,25 @@ Definition definedness_mismatches (tbl : op_table) : list (N * (N * N)) :=
       flat_map (fun kb => if Bool.eqb (registered tbl op ka kb) (kind_defined op ka kb) then []
                           else [(N.of_nat (length op), (kind_id ka, kind_id kb))]) all_kinds) all_kinds)
     matrix_ops.
+
+(* ---------- groupByEqual: keys grouped by = in order of first occurrence ---------- *)
+
+(* is k one of the group keys gs?  (found, an error is acceptable on the way) *)
+Fixpoint in_groups_spec (gs : list value) (k : value) : bool * bool :=
+  match gs with
+  | [] => (false, false)
+  | g :: r =>
+      if sem_eq g k then (true, false)
+      else let '(f, e) := in_groups_spec r k in
+           (f, e || negb (cmp_ok g k))
+  end.
+
+(* r = Ok n: n groups.  At a pair of keys that is not (fully) comparable an error is acceptable, and so is
+   going on as if they were different (their comparison may have stopped at a differing component) *)
+Fixpoint group_allowed (gs l : list value) (r : res N) : bool :=
+  match l with
+  | [] => match r with Ok n => (n =? N.of_nat (length gs))%N | _ => false end
+  | k :: rest =>
+      let '(found, mayerr) := in_groups_spec gs k in
+      (mayerr && is_err r) || group_allowed (if found then gs else gs ++ [k]) rest r
+  end.
